@@ -44,7 +44,9 @@ def vtNotForwardedNLP : List (String × String) :=
 
 /-- entries of `ControlProblemVTable` that `DLControlProblem` does not forward to a table member -/
 def vtNotForwardedOCP : List (String × String) :=
-  [("check", "DLControlProblem::check is declared inline in dl-problem.hpp with an empty body; the C ABI has no member for it")]
+  [("check", "DLControlProblem::check is declared inline in dl-problem.hpp with an empty body; the C ABI has no member for it"),
+   ("eval_proj_diff_g", "implemented by DLControlProblem itself (dlOCP.own): z − Π(z) on the stage set D (N times) and the terminal set D_N, the boxes being queried from the plug-in (get_D / get_D_N) when it is loaded; the C ABI has no member for it"),
+   ("eval_proj_multipliers", "implemented by DLControlProblem itself (dlOCP.own): BoxConstrProblem::eval_proj_multipliers_box per stage on D and on D_N; the C ABI has no member for it")]
 
 /-- public members of the type-erased classes that are not vtable entries -/
 def teOtherMembersNLP : List (String × String) :=
@@ -66,7 +68,9 @@ def dlOtherDeclaredNLP : List (String × String) :=
 def dlOtherDeclaredOCP : List (String × String) :=
   [("get_N", "reads data member N"), ("get_nx", "reads nx"), ("get_nu", "reads nu"), ("get_nh", "reads nh"),
    ("get_nh_N", "reads nh_N"), ("get_nc", "reads nc"), ("get_nc_N", "reads nc_N"),
-   ("check", "inline, empty body"), ("call_extra_func", "extra-function dictionary (not part of C20)")]
+   ("check", "inline, empty body"), ("eval_proj_diff_g", "own implementation, see vtNotForwardedOCP"),
+   ("eval_proj_multipliers", "own implementation, see vtNotForwardedOCP"),
+   ("call_extra_func", "extra-function dictionary (not part of C20)")]
 
 /-- forwarding methods of the counting wrappers that are not vtable entries (dimension getters) -/
 def wrapperDimsNLP : List String := ["get_n", "get_m"]
@@ -210,14 +214,13 @@ theorem functional_covers_vtable :
 
 /-- C-ABI loader vs. vtable: every entry is forwarded by exactly one definition (declared once in
     dl-problem.hpp, with the vtable's parameter list) — or it is in `exempt` and supplied by the
-    class itself / its base class without a table member — or it is in `missing` (a known
-    deviation: not supplied at all); nothing but vtable entries is forwarded -/
-def dlCoversVtable (t : DLTable) (te : TETable) (inherited exempt missing : List String) : Bool :=
+    class itself / its base class without a table member; nothing but vtable entries is
+    forwarded; every member that dl-problem.cpp implements without the plug-in's table (`own`) is
+    an exempted vtable entry, declared once -/
+def dlCoversVtable (t : DLTable) (te : TETable) (inherited exempt : List String) : Bool :=
   te.entries.all (fun e =>
     let k := countS (t.fwd.map (·.method)) e.name
-    if missing.contains e.name then
-      k == 0 && !t.declared.contains e.name && !inherited.contains e.name
-    else if exempt.contains e.name then
+    if exempt.contains e.name then
       k == 0 && (t.declared.contains e.name || inherited.contains e.name)
     else
       k == 1 && countS t.declared e.name == 1 &&
@@ -226,12 +229,17 @@ def dlCoversVtable (t : DLTable) (te : TETable) (inherited exempt missing : List
        | none => false)) &&
   t.fwd.all (fun f => te.entries.any (·.name == f.method)) &&
   exempt.all (fun x => te.entries.any (·.name == x)) &&
-  missing.all (fun x => te.entries.any (·.name == x))
+  t.own.all (fun x => exempt.contains x && countS t.declared x == 1) && nodupS t.own
 
 theorem dl_covers_vtable :
-    dlCoversVtable dlNLP nlpTE boxConstrDeclared (vtNotForwardedNLP.map (·.1)) [] = true ∧
-    dlCoversVtable dlOCP ocpTE [] (vtNotForwardedOCP.map (·.1)) knownDeviations.dlMissingRequired = true := by
+    dlCoversVtable dlNLP nlpTE boxConstrDeclared (vtNotForwardedNLP.map (·.1)) = true ∧
+    dlCoversVtable dlOCP ocpTE [] (vtNotForwardedOCP.map (·.1)) = true := by
   decide
+
+/-- former finding F8: `DLControlProblem` now supplies the two required projections itself -/
+theorem F8_fixed_dl_ocp_own_projections :
+    dlOCP.own = ["eval_proj_diff_g", "eval_proj_multipliers"] ∧ dlNLP.own = [] ∧
+    (ocpTE.entries.filter (·.required)).all (fun e => dlOCP.declared.contains e.name) = true := by decide
 
 /-! ## 4. `provides_X` tests the member that `X` calls — for every optional entry -/
 
@@ -246,8 +254,8 @@ def dlLinked (t : DLTable) (e : DLFwd) : Bool :=
   (t.prov.find? (·.method == e.method)).map (·.test) == some (.nonnull e.member) &&
   t.declared.contains e.method && t.declared.contains ("provides_" ++ e.method)
 
-/-- every forwarded *optional* vtable entry is linked (unguarded ones), except the named deviations;
-    `provides_` members are defined once and exactly for the declared ones; every declared member
+/-- every forwarded *optional* vtable entry is linked (unguarded ones) — `dev` = entries excluded by
+    name, empty for both loaders; `provides_` members are defined once and exactly for the declared ones; every declared member
     is a forwarding method, a `provides_` member or in the hand list `other` -/
 def dlOptionalLinked (t : DLTable) (te : TETable) (dev other : List String) : Bool :=
   t.fwd.all (fun e => match te.find e.method with
@@ -261,14 +269,17 @@ def dlOptionalLinked (t : DLTable) (te : TETable) (dev other : List String) : Bo
 
 theorem dl_optional_linked :
     dlOptionalLinked dlNLP nlpTE [] (dlOtherDeclaredNLP.map (·.1)) = true ∧
-    dlOptionalLinked dlOCP ocpTE knownDeviations.dlNoProvides (dlOtherDeclaredOCP.map (·.1)) = true := by decide
+    dlOptionalLinked dlOCP ocpTE [] (dlOtherDeclaredOCP.map (·.1)) = true := by decide
 
-/-- the deviation is what it says: forwarded unguarded optional entries without a `provides_` -/
-theorem F9_dl_ocp_no_provides :
-    knownDeviations.dlNoProvides.all (fun f =>
-      dlOCP.fwd.any (fun e => e.method == f && e.member == f && !e.guarded) &&
-      !dlOCP.prov.any (·.method == f) && !dlOCP.declared.contains ("provides_" ++ f) &&
-      ocpTE.entries.any (fun e => e.name == f && !e.required)) = true := by decide
+/-- former finding F9: there is no exemption any more — `eval_h` / `eval_h_N` are optional vtable
+    entries, forwarded unguarded, and linked to `provides_eval_h` / `provides_eval_h_N` like every
+    other optional entry of the OCP loader -/
+theorem F9_fixed_dl_ocp_output_mapping_linked :
+    ["eval_h", "eval_h_N"].all (fun f =>
+      ocpTE.entries.any (fun e => e.name == f && !e.required) &&
+      (match dlOCP.fwd.find? (·.method == f) with
+       | some e => e.member == f && !e.guarded && dlLinked dlOCP e
+       | none => false)) = true := by decide
 
 /-- the one guarded optional entry (`eval_inactive_indices_res_lna`, falls back on
     BoxConstrProblem) has exactly one `provides_`, whose test mentions the member it calls -/
@@ -504,8 +515,7 @@ theorem dlLinked_of_tables_nlp (e : DLFwd) (he : e ∈ dlNLP.fwd) (v : TEEntry)
   simpa using h1
 
 theorem dlLinked_of_tables_ocp (e : DLFwd) (he : e ∈ dlOCP.fwd) (v : TEEntry)
-    (hv : ocpTE.find e.method = some v) (hopt : v.required = false)
-    (hdev : e.method ∉ knownDeviations.dlNoProvides) :
+    (hv : ocpTE.find e.method = some v) (hopt : v.required = false) :
     dlLinked dlOCP e = true := by
   have h := dl_optional_linked.2
   simp only [dlOptionalLinked, Bool.and_eq_true, List.all_eq_true] at h
@@ -514,9 +524,8 @@ theorem dlLinked_of_tables_ocp (e : DLFwd) (he : e ∈ dlOCP.fwd) (v : TEEntry)
     have := dl_guarded_optional.2
     rw [List.all_eq_true] at this
     simpa using this e he
-  have hd : knownDeviations.dlNoProvides.contains e.method = false := by simpa using hdev
-  simp only [hv, hopt, hg, hd, Bool.false_or] at h1
-  exact h1
+  simp only [hv, hopt, hg, Bool.false_or] at h1
+  simpa using h1
 
 /-- **`flags_truthful` for `DLProblem`, over the generated tables**: for every plug-in function
     table `tbl` (any subset of members), every forwarding definition `e` of an optional, unguarded
@@ -543,10 +552,10 @@ theorem dl_flags_truthful_nlp (tbl : FnTable) (base : String → Bool) (m0 : Boo
   rw [hvn] at this
   exact this
 
-/-- the same for `DLControlProblem`, except the two named deviations (F9) -/
+/-- the same for `DLControlProblem`, every optional entry (no exclusion) -/
 theorem dl_flags_truthful_ocp (tbl : FnTable) (base : String → Bool) (e : DLFwd)
     (he : e ∈ dlOCP.fwd) (v : TEEntry) (hv : ocpTE.find e.method = some v)
-    (hopt : v.required = false) (hdev : e.method ∉ knownDeviations.dlNoProvides) :
+    (hopt : v.required = false) :
     ((dlOCP.native tbl base).provided e.method = true →
       tbl e.member = true ∧ dlOCP.pluginCalls tbl e.method = some [e.member] ∧
       resolveOCP (dlOCP.native tbl base).provided e.method = .calls [e.method]) ∧
@@ -558,7 +567,7 @@ theorem dl_flags_truthful_ocp (tbl : FnTable) (base : String → Bool) (e : DLFw
     have := dl_guarded_optional.2
     rw [List.all_eq_true] at this
     simpa using this e he
-  obtain ⟨h1, h2, _⟩ := dlLinked_sound dlOCP e (dlLinked_of_tables_ocp e he v hv hopt hdev) hg tbl base
+  obtain ⟨h1, h2, _⟩ := dlLinked_sound dlOCP e (dlLinked_of_tables_ocp e he v hv hopt) hg tbl base
   have hvm : v ∈ ocpTE.entries := List.mem_of_find?_eq_some hv
   have hvn : v.name = e.method := by simpa using List.find?_some hv
   refine ⟨fun hp => ⟨h1 ▸ hp, h2 (h1 ▸ hp), (flags_truthful_ocp _ _).1 hp⟩, fun hp => ⟨h1 ▸ hp, ?_⟩⟩
@@ -568,7 +577,7 @@ theorem dl_flags_truthful_ocp (tbl : FnTable) (base : String → Bool) (e : DLFw
 
 /-- non-vacuity (all hypotheses of `dl_flags_truthful_nlp` / `_ocp` on concrete entries): the
     forwarding definition of `eval_hess_L_prod` (NLP) and of `eval_constr_N` (OCP) are in the
-    generated tables, their vtable entries are optional, they are unguarded and not deviations; with
+    generated tables, their vtable entries are optional, they are unguarded; with
     a table that has / omits the member the flag is true / false -/
 example :
     (dlNLP.fwd.find? (·.method == "eval_hess_L_prod")).isSome = true ∧
@@ -578,41 +587,20 @@ example :
     (dlNLP.native (fun f => f == "eval_f") (fun _ => true)).provided "eval_hess_L_prod" = false ∧
     (dlOCP.fwd.find? (·.method == "eval_constr_N")).isSome = true ∧
     (ocpTE.find "eval_constr_N").map (·.required) = some false ∧
-    "eval_constr_N" ∉ knownDeviations.dlNoProvides ∧
     (dlOCP.native (fun f => f == "eval_constr_N") (fun _ => true)).provided "eval_constr_N" = true ∧
     (dlOCP.native (fun f => f == "eval_f") (fun _ => true)).provided "eval_constr_N" = false := by decide
 
-/-- **F9 in the model** (what the real code does, see `checks/c20.py`): whatever the plug-in's table
-    contains, `DLControlProblem` is seen as providing `eval_h` / `eval_h_N`; when the table member
-    is null the call is a jump through a null function pointer. -/
-theorem F9_eval_h_provided_but_null (tbl : FnTable) (base : String → Bool) (f : String)
-    (hf : f ∈ knownDeviations.dlNoProvides) :
-    (dlOCP.native tbl base).provided f = true ∧
-    (tbl f = false → dlOCP.pluginCalls tbl f = none) := by
-  simp only [knownDeviations.dlNoProvides, List.mem_cons, List.not_mem_nil, or_false] at hf
-  rcases hf with rfl | rfl
-  · have h1 : "eval_h" ∈ dlOCP.declared := by decide
-    have h2 : dlOCP.prov.any (·.method == "eval_h") = false := by decide
-    have h3 : (dlOCP.fwd.find? (·.method == "eval_h")).map (fun e => (e.guarded, e.member)) = some (false, "eval_h") := by decide
-    refine ⟨by simp [DLTable.native, Native.provided, h1, h2], fun ht => ?_⟩
-    cases hq : dlOCP.fwd.find? (·.method == "eval_h") with
-    | none => simp [hq] at h3
-    | some e =>
-      simp only [hq, Option.map_some, Option.some.injEq, Prod.mk.injEq] at h3
-      simp [DLTable.pluginCalls, hq, h3.1, h3.2, ht]
-  · have h1 : "eval_h_N" ∈ dlOCP.declared := by decide
-    have h2 : dlOCP.prov.any (·.method == "eval_h_N") = false := by decide
-    have h3 : (dlOCP.fwd.find? (·.method == "eval_h_N")).map (fun e => (e.guarded, e.member)) = some (false, "eval_h_N") := by decide
-    refine ⟨by simp [DLTable.native, Native.provided, h1, h2], fun ht => ?_⟩
-    cases hq : dlOCP.fwd.find? (·.method == "eval_h_N") with
-    | none => simp [hq] at h3
-    | some e =>
-      simp only [hq, Option.map_some, Option.some.injEq, Prod.mk.injEq] at h3
-      simp [DLTable.pluginCalls, hq, h3.1, h3.2, ht]
-
-example : "eval_h" ∈ knownDeviations.dlNoProvides ∧
-    (dlOCP.native (fun f => f != "eval_h") (fun _ => true)).provided "eval_h" = true ∧
-    dlOCP.pluginCalls (fun f => f != "eval_h") "eval_h" = none ∧
-    resolveOCP (fun f => f != "eval_h") "eval_h" = .notImpl "eval_h" := by decide
+/-- former finding F9, semantically: an OCP plug-in whose table leaves `eval_h` null is reported as
+    *not* providing it, and the type-erased call raises `not_implemented_error("eval_h")`; with the
+    member present it is reported as provided and the call runs the plug-in's function -/
+example :
+    (dlOCP.fwd.find? (·.method == "eval_h")).isSome = true ∧
+    (ocpTE.find "eval_h").map (·.required) = some false ∧
+    (dlOCP.native (fun f => f != "eval_h") (fun _ => true)).provided "eval_h" = false ∧
+    resolveOCP (dlOCP.native (fun f => f != "eval_h") (fun _ => true)).provided "eval_h" = .notImpl "eval_h" ∧
+    (dlOCP.native (fun _ => true) (fun _ => true)).provided "eval_h" = true ∧
+    dlOCP.pluginCalls (fun _ => true) "eval_h" = some ["eval_h"] ∧
+    ocpCtorMissing (dlOCP.native (fun f => f != "eval_h") (fun _ => true)).provided 0 1 1 = some "eval_h" := by
+  decide
 
 end Alpaqa.Props.C20
